@@ -68,16 +68,18 @@ func (in *Interp) lookupNative(fn *ssa.Function, name string) nativeFn {
 // keepReal: functions of stubbed packages that are interpreted from their SSA all the same
 // (the OpenTelemetry span context is plain data that ClientInfo puts on the wire).
 var keepReal = map[string]bool{
-	"go.opentelemetry.io/otel/trace.NewSpanContext":           true,
-	"(go.opentelemetry.io/otel/trace.SpanContext).IsValid":    true,
-	"(go.opentelemetry.io/otel/trace.SpanContext).HasTraceID": true,
-	"(go.opentelemetry.io/otel/trace.SpanContext).HasSpanID":  true,
-	"(go.opentelemetry.io/otel/trace.SpanContext).TraceID":    true,
-	"(go.opentelemetry.io/otel/trace.SpanContext).SpanID":     true,
-	"(go.opentelemetry.io/otel/trace.SpanContext).TraceFlags": true,
-	"(go.opentelemetry.io/otel/trace.SpanContext).TraceState": true,
-	"(go.opentelemetry.io/otel/trace.TraceID).IsValid":        true,
-	"(go.opentelemetry.io/otel/trace.SpanID).IsValid":         true,
+	"go.opentelemetry.io/otel/trace.NewSpanContext":               true,
+	"(go.opentelemetry.io/otel/trace.SpanContext).IsValid":        true,
+	"(go.opentelemetry.io/otel/trace.SpanContext).HasTraceID":     true,
+	"(go.opentelemetry.io/otel/trace.SpanContext).HasSpanID":      true,
+	"(go.opentelemetry.io/otel/trace.SpanContext).TraceID":        true,
+	"(go.opentelemetry.io/otel/trace.SpanContext).SpanID":         true,
+	"(go.opentelemetry.io/otel/trace.SpanContext).TraceFlags":     true,
+	"(go.opentelemetry.io/otel/trace.SpanContext).TraceState":     true,
+	"(go.opentelemetry.io/otel/trace.TraceID).IsValid":            true,
+	"(go.opentelemetry.io/otel/trace.SpanID).IsValid":             true,
+	"go.opentelemetry.io/otel/trace/noop.NewTracerProvider":       true,
+	"(go.opentelemetry.io/otel/trace/noop.TracerProvider).Tracer": true,
 }
 
 var nativeTable = map[string]nativeFn{}
